@@ -197,7 +197,7 @@ PROPS = {
                      "it is not itself a machine-checked theorem over traces"],
     ),
     "C07": dict(
-        units=["election"],
+        units=["election", "members"],
         undecided=["the protocol half of the statement: that after any interleaving of candidacies, acknowledgements and set-primary messages between 2-3 nodes exactly one node "
                    "is Primary and all nodes name the same one (a global invariant over several processes and message orders; no contract on one call states it)",
                    "the SetPrimary / Join / Leave / ElectionWin dispatcher arms (their bodies are closures handed to apply_if_auth; R10 abstracts closure bodies) and the "
@@ -229,8 +229,8 @@ PROPS = {
         assumptions=["Change::new stamps the resolving change with the wall clock (any u64)"],
     ),
     "C10": dict(
-        units=["store", "consensus", "security", "ids", "oplog", "pending", "parser", "sessions", "http", "election", "snapshot", "sync", "listing", "permissions", "replies", "oplogflag"],
-        reachable={"oplogflag": ["invalidate_oplog", "mark_op_log_as_valid", "snapshot_keys", "generate_key_id", "arm_replicate_set", "arm_replicate_increment", "arm_replicate_remove"], "replies": ["get_key_value", "get_key_value_safe", "arm_get", "arm_get_safe", "arm_keys"], "permissions": ["Permission::from", "Permission::permissions_from_str", "From<char>@PermissionKind::from", "has_permission"], "listing": ["Database::list_keys", "filter_system_keys", "get_function_by_pattern", "starts_with", "ends_with", "contains", "Database::list_conflicts_keys",
+        units=["store", "consensus", "security", "ids", "oplog", "pending", "parser", "sessions", "http", "election", "snapshot", "sync", "listing", "permissions", "replies", "oplogflag", "members"],
+        reachable={"members": ["Databases::add_cluster_member", "Databases::promote_member", "Databases::remove_cluster_member"], "oplogflag": ["invalidate_oplog", "mark_op_log_as_valid", "snapshot_keys", "generate_key_id", "arm_replicate_set", "arm_replicate_increment", "arm_replicate_remove"], "replies": ["get_key_value", "get_key_value_safe", "arm_get", "arm_get_safe", "arm_keys"], "permissions": ["Permission::from", "Permission::permissions_from_str", "From<char>@PermissionKind::from", "has_permission"], "listing": ["Database::list_keys", "filter_system_keys", "get_function_by_pattern", "starts_with", "ends_with", "contains", "Database::list_conflicts_keys",
                                "Database::has_pendding_conflict", "Database::register_arbiter"], "sync": ["make_create_db_command", "get_full_sync_opps", "get_pendding_opps_since"], "snapshot": ["get_keys_to_update", "write_metadata_file", "load_db_metadata_from_disk_or_empty", "ConsensuStrategy::to_le_bytes", "From<i32>@ConsensuStrategy::from", "NodeDrive::storage_data_disk", "write_value", "write_key", "update_key", "write_new_key_value", "get_key_disk_size", "create_db_from_file_name", "ValueStatus::to_le_bytes"], "http": ["process_commands"], "election": ["election_eval", "start_election", "start_new_election", "election_win", "Databases::get_role", "Databases::is_eligible", "Databases::is_primary", "From<usize>@ClusterRole::from"], "store": STORE_FNS, "security": SECURITY_FNS, "pending": ["ReplicationMessage::new", "ReplicationMessage::ack", "ReplicationMessage::replicated", "ReplicationMessage::is_full_acknowledged",
                    "ReplicationMessage::count_replication", "ReplicationMessage::count_acknowledged", "ReplicationMessage::get_copy", "Databases::register_pending_opp",
                    "Databases::acknowledge_pending_opp", "Databases::get_pending_opp_copy"],
